@@ -462,13 +462,19 @@ impl<S: Clone + tower::Service<Req>> Handles<S> {
             }
             3 if self.n % 3 == 0 => {
                 let mut p = self.parked.pop_front().unwrap();
-                SKIP_READY.with(|c| c.set(true));
-                let r = f(&mut p);
-                SKIP_READY.with(|c| c.set(false));
+                // the replacement is parked before the call is made: a call that panics (injected) must not use up the pool
                 let mut next = self.base.clone();
                 ready_until_ok(&mut next);
                 self.parked.push_back(next);
-                r
+                struct Skip;
+                impl Drop for Skip {
+                    fn drop(&mut self) {
+                        SKIP_READY.with(|c| c.set(false));
+                    }
+                }
+                SKIP_READY.with(|c| c.set(true));
+                let _reset = Skip;
+                f(&mut p)
             }
             _ => {
                 let mut c = self.base.clone();
